@@ -22,6 +22,10 @@ type SSHServer struct {
 	AuthKeys map[string]ssh.PublicKey
 	Peer     simnet.Peer // what the shell / subsystem talks to
 	Raw      func(ch ssh.Channel)
+	// KbdQuestion: when set the server takes passwords through keyboard-interactive only (not
+	// through the password method), asking this one question with the echo flag KbdEcho
+	KbdQuestion string
+	KbdEcho     bool
 
 	mu           sync.Mutex
 	SawUser      string
@@ -72,7 +76,27 @@ func NewClientKey() (ssh.Signer, []byte) {
 // Serve runs the server on conn until the connection ends.
 func (s *SSHServer) Serve(conn net.Conn) {
 	defer close(s.Done)
+	var kbd func(c ssh.ConnMetadata, challenge ssh.KeyboardInteractiveChallenge) (*ssh.Permissions, error)
+	if s.KbdQuestion != "" {
+		kbd = func(c ssh.ConnMetadata, challenge ssh.KeyboardInteractiveChallenge) (*ssh.Permissions, error) {
+			ans, err := challenge(c.User(), "", []string{s.KbdQuestion}, []bool{s.KbdEcho})
+			if err != nil || len(ans) != 1 {
+				return nil, fmt.Errorf("keyboard-interactive failed: %v", err)
+			}
+			s.mu.Lock()
+			s.SawUser = c.User()
+			s.Passwords = append(s.Passwords, ans[0])
+			s.KbdAnswers = append(s.KbdAnswers, ans[0])
+			s.mu.Unlock()
+			if want, ok := s.Users[c.User()]; ok && want != "" && want == ans[0] {
+				return nil, nil
+			}
+
+			return nil, fmt.Errorf("answer rejected")
+		}
+	}
 	cfg := &ssh.ServerConfig{
+		KeyboardInteractiveCallback: kbd,
 		PasswordCallback: func(c ssh.ConnMetadata, pass []byte) (*ssh.Permissions, error) {
 			s.mu.Lock()
 			s.SawUser = c.User()
@@ -95,6 +119,9 @@ func (s *SSHServer) Serve(conn net.Conn) {
 
 			return nil, fmt.Errorf("key rejected")
 		},
+	}
+	if kbd != nil {
+		cfg.PasswordCallback = nil
 	}
 	cfg.AddHostKey(s.HostKey)
 	sc, chans, reqs, err := ssh.NewServerConn(conn, cfg)
